@@ -143,6 +143,12 @@ func VerifC09_EFrozen() {
 	for i, e := range exprs {
 		vAssert(e.String() == txt0[i], "every expression of the program still prints as it was read: "+txt0[i]+" became "+e.String())
 	}
+	// the spare capacity behind the program's cell arrays is part of its (shared) storage: an
+	// in-place append through any alias of a node's cells lands there, invisible to printing and to
+	// the fingerprint but a write to shared memory all the same
+	for _, e := range exprs {
+		vAssert(c09SlackClean(e), "nothing was written into the spare capacity of a program node's cell array")
+	}
 	// a fresh parse gives the same result
 	env3 := mk()
 	r4 := env3.LoadString("prog", src)
@@ -192,4 +198,24 @@ func VerifC09_EIsolation() {
 	vAssert(!lisp.IsInternalPanic(r), "no panic")
 	vAssert(vGlobalWrites() == 0, "evaluation writes no process-wide state: "+vGlobalWriteSite())
 	vCover("end")
+}
+
+// c09SlackClean reports whether every slot between len and cap of every cell array in the tree is
+// still nil (the reader builds the arrays by appending to nil, so unused slots start out nil).
+func c09SlackClean(v *lisp.LVal) bool {
+	if v == nil {
+		return true
+	}
+	full := v.Cells[:cap(v.Cells)]
+	for i := len(v.Cells); i < len(full); i++ {
+		if full[i] != nil {
+			return false
+		}
+	}
+	for _, c := range v.Cells {
+		if !c09SlackClean(c) {
+			return false
+		}
+	}
+	return true
 }
